@@ -8,8 +8,18 @@ KF_PATH = os.path.join(VERIF, 'known_findings.json')
 def load_known(pid):
     if not os.path.exists(KF_PATH):
         return []
-    with open(KF_PATH) as f:
-        data = json.load(f)
+    data = None
+    for attempt in range(5):            # the file may be rewritten by hand while a long run is in progress
+        try:
+            with open(KF_PATH) as f:
+                data = json.load(f)
+            break
+        except json.JSONDecodeError:
+            import time
+            time.sleep(0.2)
+    if data is None:
+        with open(KF_PATH) as f:
+            data = json.load(f)
     return [e for e in data.get('findings', []) if e.get('property') == pid and e.get('status') == 'known']
 
 
